@@ -457,4 +457,20 @@ MUTANTS = [
                     cur = prev;""", """                ValuePointerRef::Index { index, prev } => {
                     if components.len() < 64 { components.push(ValuePointerComponent::Index(*index)); }
                     cur = prev;""")]},
+    # ------------------------------------------------------------------ C18
+    {"id": "c18-lt-instead-of-le", "props": ["C18"], "edits": [("src/errors/helpers.rs", ".filter(|(_, distance)| distance <= &typo_allowed)", ".filter(|(_, distance)| distance < &typo_allowed)")]},
+    {"id": "c18-max-by", "props": ["C18"], "edits": [("src/errors/helpers.rs", ".min_by(|(_, d1), (_, d2)| d1.cmp(d2))", ".max_by(|(_, d1), (_, d2)| d2.cmp(d1))")]},
+    {"id": "c18-levenshtein", "props": ["C18"], "edits": [("src/errors/helpers.rs", "use strsim::damerau_levenshtein;", "use strsim::levenshtein as damerau_levenshtein;")]},
+    {"id": "c18-threshold-4-7-is-2", "props": ["C18"], "edits": [("src/errors/helpers.rs", "        4..=7 => 1,", "        4..=6 => 1,\n        7 => 2,")]},
+    {"id": "c18-budget-from-accepted-len", "props": ["C18"], "edits": [("src/errors/helpers.rs", "    let typo_allowed = match received.len() {", "    let typo_allowed = match accepted.first().map(|a| a.len()).unwrap_or(received.len()) {")]},
+    {"id": "c18-last-minimum", "props": ["C18"], "edits": [("src/errors/helpers.rs", ".min_by(|(_, d1), (_, d2)| d1.cmp(d2))", ".min_by(|(_, d1), (_, d2)| d1.cmp(d2).then(std::cmp::Ordering::Greater))")]},
+    {"id": "c18-swapped-args", "props": ["C18"], "edits": [("src/errors/helpers.rs", ".min_by(|(_, d1), (_, d2)| d1.cmp(d2))", ".min_by(|(_, d1), (_, d2)| d2.cmp(d1))")]},
+    {"id": "c18-skip-first-candidate", "props": ["C18"], "edits": [("src/errors/helpers.rs", "    match accepted\n        .iter()\n        .map(", "    match accepted\n        .iter()\n        .filter(|a| a.len() < 4096)\n        .map(")]},
+    # ------------------------------------------------------------------ C17
+    {"id": "c17-dedup-removed", "props": ["C17"], "edits": [("src/errors/json.rs", "    kinds.dedup();\n", "")]},
+    {"id": "c17-sort-removed", "props": ["C17"], "edits": [("src/errors/json.rs", "    kinds.sort_by_key(order);\n", "")]},
+    {"id": "c17-order-not-injective", "props": ["C17"], "edits": [("src/errors/json.rs", "            ValueKind::NegativeInteger => 3,", "            ValueKind::NegativeInteger => 2,")]},
+    {"id": "c17-first-special-case", "props": ["C17"], "edits": [("src/errors/json.rs", "    let mut kinds = kinds.to_owned();", "    if kinds.first() == Some(&ValueKind::Map) && kinds.len() == 2 { return \"an object or something\".to_owned(); }\n    let mut kinds = kinds.to_owned();")]},
+    {"id": "c17-float-is-float", "props": ["C17"], "edits": [("src/errors/json.rs", "            ValueKind::Float => \"a number\",", "            ValueKind::Float => \"a float\",")]},
+    {"id": "c17-unstable-sort-by-dup-key", "props": ["C17"], "edits": [("src/errors/json.rs", "    kinds.sort_by_key(order);", "    kinds.sort_by_key(|k| order(k) / 2);")]},
 ]
